@@ -207,7 +207,9 @@ def run_lines(case):
     if out:
         return out
     try:
-        s2 = _split_run(case, len(history))
+        # lines following the one that closed the connection may share a read with it: they must be disregarded.
+        # (Only after a completed handshake are further bytes binary, so the sequence is cut there.)
+        s2 = _split_run(case, len(history) if summary[3] else len(case['seq']))
     except Exception as e:
         return [Disc(exc_key(e, 'split.exception'), exc_detail(e))]
     canon_bytes = b''.join(b''.join(ln + b'\r\n' for ln in lines) + left for lines, left in summary[1])
